@@ -23,6 +23,8 @@ def mk_plain(t, n, strat):
     tt = tensor_t(t, [n, n])
     wit = 'extern "C" void @W@(const %s& A, %s& X){ X = inverse<InvCompType::%s>(A); }' % (tt, tt, strat)
     obl = [{'kind': 'depends', 'region': 'X', 'cell': c, 'ns': 'A', 'cells': list(range(n * n))} for c in (0, n * n - 1, n + 1 if n > 1 else 0)]
+    if t == 'f64':
+        obl.append({'kind': 'no_narrowing', 'region': 'X', 'cells': n * n})
     return Witness('invplain_%s_%s_%d' % (t, strat, n), 'inverse.' + strat + '.structure', {'type': t, 'n': n, 'strategy': strat}, wit, '', [treg('A', t, [n, n]), treg('X', t, [n, n], 'out')],
                    [{'mod': 'wit', 'fn': '@W@', 'args': ['A', 'X']}], obl)
 
